@@ -375,10 +375,125 @@ def check_siblings(ctx):
     return ta == tb
 
 
+# ------------------------------------------------------------------------------------ AXI transition check
+
+
+def _num(x):
+    from fractions import Fraction as F
+
+    from ..shims import NpScalar
+    from .. import arr as A
+
+    if isinstance(x, NpScalar):
+        return x.v
+    if isinstance(x, A.Arr):
+        return x.elems[0] if x.size == 1 and x.is_concrete() else None
+    return x
+
+
+def _mk(kind, v):
+    from ..shims import NpScalar
+    from .. import arr as A
+
+    if v is None:
+        return None
+    if kind == "PyFloat":
+        return v
+    if kind == "NumPyFloat32":
+        return NpScalar(v, "float32")
+    if kind == "NumPyFloat64":
+        return NpScalar(v, "float64")
+    return A.Arr((), [v], "float")
+
+
+def state_fields(pm, clsname):
+    init = pm.func(STOP_MOD, clsname + ".__init__")
+    fields = [ast.unparse(t) for st in ast.walk(init) if isinstance(st, ast.Assign) for t in st.targets]
+    best_fields = [f for f in fields if f.startswith("self.best_") and f != "self.best_model"]
+    counter_fields = [f for f in fields if "since" in f or "counter" in f or "wait" in f]
+    if len(best_fields) != 1 or len(counter_fields) != 1:
+        raise AnalysisError("%s: cannot identify the best-loss / counter state fields (%s / %s)" % (clsname, best_fields, counter_fields))
+    return best_fields[0][5:], counter_fields[0][5:]
+
+
+def transition_worker(job):
+    """Abstract interpretation of <cls>.stop on one representative of every order type of
+    (loss, best, best - min_delta) x (counter, patience) x value kind; compared with the stated transition."""
+    repo, clsname, monitor_index, best_f, counter_f = job
+    it, w = get_interp(repo)
+    ml = it.get_module("ginjax.ml")
+    cls = getattr(ml, clsname)
+    problems = []
+    n = 0
+    INF = float("inf")
+    for kind in KINDS:
+        for delta, best, losses in ((2, 10, (7, 8, 9, 10, 11)), (0, 10, (9, 10, 11)), (2, INF, (5,)), (0, INF, (5,))):
+            for loss in losses + (None,):
+                for counter in (0, 1, 2):
+                    for patience in (0, 1, 2):
+                        for verbose in (0, 1):
+                            n += 1
+                            obj = attempt(lambda: cls(patience, delta, verbose))
+                            if isinstance(obj, Rejected):
+                                return dict(n=n, problems=[("rejected", "%s(patience=%d, min_delta=%d, verbose=%d) rejected: %s" % (clsname, patience, delta, verbose, obj.exc), dict(kind=kind))])
+                            at = object.__getattribute__(obj, "attrs")
+                            at[best_f] = best
+                            at[counter_f] = counter
+                            at["best_model"] = "model@best"
+                            lv = _mk(kind, loss)
+                            other = _mk(kind, 3)  # the non-monitored loss is much better: monitoring it is visible
+                            args = ["model@now", 4, lv, other, 0.5] if monitor_index == 2 else ["model@now", 4, other, lv, 0.5]
+                            res = attempt(lambda: obj.stop(*args))
+                            cfgd = dict(kind=kind, best=str(best), loss=loss, min_delta=delta, counter=counter, patience=patience, verbose=verbose)
+                            if isinstance(res, Rejected):
+                                problems.append(("rejected", "stop() raised for a %s loss: %s" % (kind, res.exc), cfgd))
+                                continue
+                            if loss is None:
+                                exp = (False, best, counter, "model@best")
+                            elif loss < best - delta:
+                                exp = (0 > patience, loss, 0, "model@now")
+                            else:
+                                exp = (counter + 1 > patience, best, counter + 1, "model@best")
+                            got_best = _num(at.get(best_f))
+                            got = (bool(res) if not isinstance(res, A.Arr) else bool(res), got_best, at.get(counter_f), at.get("best_model"))
+                            if got != exp:
+                                what = []
+                                names = ("stop result", "best loss", "non-improving epoch counter", "best model")
+                                for nm, g, e in zip(names, got, exp):
+                                    if g != e:
+                                        what.append("%s is %s, expected %s" % (nm, g, e))
+                                kindtag = "kind" if (loss is not None and got == (False, best, counter, "model@best")) else "transition"
+                                problems.append((kindtag, "; ".join(what), cfgd))
+    return dict(n=n, problems=problems)
+
+
+def epochstop_worker(job):
+    repo, = job
+    it, w = get_interp(repo)
+    ml = it.get_module("ginjax.ml")
+    problems = []
+    n = 0
+    for epochs in (1, 3, 12):
+        for verbose in (0, 1, 2):
+            for cur in range(0, epochs + 2):
+                n += 1
+                obj = attempt(lambda: ml.EpochStop(epochs, verbose))
+                if isinstance(obj, Rejected):
+                    return dict(n=n, problems=[("rejected", "EpochStop rejected: %s" % obj.exc, None)])
+                res = attempt(lambda: obj.stop("model@now", cur, 1, None, 0.5))
+                if isinstance(res, Rejected):
+                    problems.append(("rejected", "EpochStop.stop raised: %s" % res.exc, dict(epochs=epochs, epoch=cur, verbose=verbose)))
+                    continue
+                at = object.__getattribute__(obj, "attrs")
+                if bool(res) != (cur >= epochs) or at.get("best_model") != "model@now":
+                    problems.append(("epochstop", "EpochStop(%d).stop at epoch %d returns %s and hands back %s (expected %s and the current model)" % (epochs, cur, bool(res), at.get("best_model"), cur >= epochs), dict(epochs=epochs, epoch=cur, verbose=verbose)))
+    return dict(n=n, problems=problems)
+
+
 def run(ctx):
     ev, pm = ctx.ev, ctx.pm
     ev.explanation = (
-        "Control-flow path enumeration of TrainLoss.stop, ValLoss.stop and EpochStop.stop (AST of the working tree): every path is normalised to roles "
+        "(1) Semantic transition check: TrainLoss/ValLoss/EpochStop.stop are abstractly interpreted (working tree) from one representative of every order type of (loss, best, best-min_delta) x (counter, patience) x value kind (Python float, np.float32, np.float64, JAX scalar), and the resulting (stop, best, counter, best_model) is compared with the transition of the statement -- robust to any re-formulation of the method; (2) control-flow path enumeration of the same methods (AST): every path is normalised to roles "
         "(monitored loss, best, min_delta, counter, patience, model) and compared with the transition function of the statement; because the check is on the "
         "transition function, it covers every loss history by induction. KIND: each early-exit guard is evaluated on an isinstance class table for Python floats, "
         "NumPy float32/float64 scalars and JAX scalars -- the kinds the statement lists and train() supplies; a guard that diverts one of them is a violation. "
@@ -387,10 +502,47 @@ def run(ctx):
     ev.rule_text = "rule instances = control-flow paths of the three stop methods x value kinds, plus the stop() call site in train"
     ev.assumptions = ["comparison of a loss with a float behaves as on real numbers (NaN not considered)", "float(x) / x.item() preserve the value", "isinstance class table: float ⊇ {Python float, np.float64}; np.floating ⊇ NumPy float scalars; jax.Array ⊇ JAX scalars"]
     findings = []
-    findings += check_patience(ctx, "TrainLoss", 2, "train")
-    findings += check_patience(ctx, "ValLoss", 3, "val")
-    findings += check_epochstop(ctx)
+    cf_notes = []
+    for clsname, mi, hint in (("TrainLoss", 2, "train"), ("ValLoss", 3, "val")):
+        try:
+            findings += check_patience(ctx, clsname, mi, hint)
+        except AnalysisError as e:
+            # the syntactic normal form is not recognised: the semantic transition check below decides
+            cf_notes.append(str(e))
+    try:
+        findings += check_epochstop(ctx)
+    except AnalysisError as e:
+        cf_notes.append(str(e))
+    ev.extra["cf_notes"] = cf_notes
     findings += check_train(ctx)
+    # semantic transition check (decides): abstract interpretation of stop() on representatives of every order type
+    tj = []
+    for clsname, mi in (("TrainLoss", 2), ("ValLoss", 3)):
+        bf, cf = state_fields(pm, clsname)
+        tj.append((ctx.repo, clsname, mi, bf, cf))
+    n_axi = 0
+    for job, r in ctx.pairs(transition_worker, tj):
+        n_axi += r["n"]
+        seen_k = {}
+        for kind, what, cfgd in r["problems"]:
+            key = (kind, what.split(";")[0][:40])
+            if key in seen_k:
+                seen_k[key][1] += 1
+                continue
+            seen_k[key] = [(kind, what, cfgd), 1]
+        fn = pm.func(STOP_MOD, job[1] + ".stop")
+        for (kind, what, cfgd), cnt in seen_k.values():
+            rule = "C19.KIND" if kind == "kind" else "C19.AXI." + kind
+            wit = "loss-kind" if kind == "kind" else kind
+            msg = what if kind != "kind" else "a %s loss never reaches the state machine (%s): the condition ignores the values train() passes" % (cfgd["kind"], what)
+            findings.append(Finding("C19", rule, job[1] + ".stop", "%s (%d of the representative states fail)" % (msg, cnt), pm.path(STOP_MOD), fn.lineno, cfgd, wit))
+    for job, r in ctx.pairs(epochstop_worker, [(ctx.repo,)]):
+        n_axi += r["n"]
+        if r["problems"]:
+            kind, what, cfgd = r["problems"][0]
+            fn = pm.func(STOP_MOD, "EpochStop.stop")
+            findings.append(Finding("C19", "C19.AXI." + kind, "EpochStop.stop", "%s (%d of the representative states fail)" % (what, len(r["problems"])), pm.path(STOP_MOD), fn.lineno, cfgd, kind))
+    ev.instances("C19.AXI.representative_states", n_axi, floor=1000)
     same = check_siblings(ctx)
     ev.extra["siblings_equal_up_to_renaming"] = same
     n = 0
@@ -402,10 +554,7 @@ def run(ctx):
         seen.add(k)
         ctx.add(f)
     total = ev.rule_instances.get("C19.CF.paths", 0)
-    ev.floors["C19.CF.paths"] = 7
-    for i in range(total * len(KINDS) + 4):
-        pass
-    ev.obligations = total * len(KINDS) + 4
+    ev.obligations = total * len(KINDS) + 4 + n_axi
     ev.discharged = ev.obligations - len(seen)
     ev.evaluations = ev.obligations
     for kind in KINDS:
